@@ -120,56 +120,73 @@ if "determinism.cache_policy_lru" not in CATALOGUE:
             "two_queue": lambda: ep.TwoQueueEviction(),
         }[name]()
 
-    def _make_cache_scenario(pname):
-        @scenario(f"determinism.cache_policy_{pname}", "determinism")
-        def cache_policy(seed, params, pname=pname):
-            """CachedStore (write-back half of the time) with string keys under heavy capacity pressure:
-            which key a policy evicts decides hits, misses and the delivery times of every later operation."""
+    def _make_cache_scenario(pname, large=False):
+        @scenario(f"determinism.cache_policy_{pname}" + ("_large_keyspace" if large else ""), "determinism")
+        def cache_policy(seed, params, pname=pname, large=large):
+            """CachedStores (write-back half of the time) with string keys under heavy capacity pressure:
+            which key a policy evicts decides hits, misses and the delivery times of every later operation.
+            The large variant runs four independent cache/client groups with different sub-seeds in one
+            simulation (key space a little larger than the caches' ghost lists)."""
             from happysimulator.components.datastore import CachedStore, KVStore
 
-            rng = random.Random(seed)
-            backing = KVStore("backing", read_latency=0.002, write_latency=0.003)
-            cache = CachedStore(
-                "cache",
-                backing_store=backing,
-                cache_capacity=rng.choice([2, 3, 8]),
-                eviction_policy=_policy(pname, seed),
-                cache_read_latency=0.0005,
-                write_through=rng.random() < 0.5,
-            )
+            entities, comps, total = [], {}, 0
+            scheduled = []
+            for g in range(4 if large else 1):
+                rng = random.Random(f"{seed}/{g}")
+                backing = KVStore(f"backing{g}", read_latency=0.002, write_latency=0.003)
+                cache = CachedStore(
+                    f"cache{g}",
+                    backing_store=backing,
+                    cache_capacity=rng.choice([2, 3, 8]),
+                    eviction_policy=_policy(pname, seed + g),
+                    cache_read_latency=0.0005,
+                    write_through=rng.random() < 0.5,
+                )
 
-            class Client(Entity):
-                def __init__(self):
-                    super().__init__("client")
-                    self.results = []
+                class Client(Entity):
+                    def __init__(self, name, cache):
+                        super().__init__(name)
+                        self.cache = cache
+                        self.results = []
 
-                def handle_event(self, event):
-                    md = event.context["metadata"]
-                    if md["op"] == "put":
-                        yield from cache.put(md["k"], md["v"])
-                    elif md["op"] == "flush":
-                        yield from cache.flush()
+                    def handle_event(self, event):
+                        md = event.context["metadata"]
+                        if md["op"] == "put":
+                            yield from self.cache.put(md["k"], md["v"])
+                        elif md["op"] == "flush":
+                            yield from self.cache.flush()
+                        else:
+                            v = yield from self.cache.get(md["k"])
+                            self.results.append([md["k"], v])
+
+                client = Client(f"client{g}", cache)
+                entities += [backing, cache, client]
+                comps.update({f"cache{g}": cache, f"backing{g}": backing, f"client{g}": client})
+                keys = [f"user:{i}:profile" for i in range(rng.choice([70, 90, 120]) if large else rng.choice([6, 12, 80]))]
+                skew = (not large) and rng.random() < 0.5
+
+                def pick(rng=rng, keys=keys, skew=skew):
+                    return keys[(int(rng.paretovariate(0.9)) - 1) % len(keys)] if skew else rng.choice(keys)
+
+                t = 0
+                n = 600 if large else 300
+                total += n
+                for i in range(n):
+                    t += rng.choice([1_000_000, 5_000_000, 20_000_000])
+                    r = rng.random()
+                    if r < 0.35:
+                        scheduled.append((t, client, dict(op="put", k=pick(), v=i)))
+                    elif r < 0.38:
+                        scheduled.append((t, client, dict(op="flush")))
                     else:
-                        v = yield from cache.get(md["k"])
-                        self.results.append([md["k"], v])
-
-            client = Client()
-            sim = make_sim([backing, cache, client], 60.0)
-            keys = [f"user:{i}:profile" for i in range(rng.choice([6, 12, 80]))]
-            t = 0
-            n = 200
-            for i in range(n):
-                t += rng.choice([1_000_000, 5_000_000, 20_000_000])
-                r = rng.random()
-                if r < 0.35:
-                    sim.schedule(ev(t, "Op", client, op="put", k=rng.choice(keys), v=i))
-                elif r < 0.38:
-                    sim.schedule(ev(t, "Op", client, op="flush"))
-                else:
-                    sim.schedule(ev(t, "Op", client, op="get", k=rng.choice(keys)))
-            return Scenario(sim, {"cache": cache, "backing": backing, "client": client}, "determinism", True, n)
+                        scheduled.append((t, client, dict(op="get", k=pick())))
+            sim = make_sim(entities, 60.0)
+            for t, client, md in scheduled:
+                sim.schedule(ev(t, "Op", client, **md))
+            return Scenario(sim, comps, "determinism", True, total)
 
         return cache_policy
 
     for _p in ("lru", "lfu", "ttl", "fifo", "random", "slru", "sampled_lru", "clock", "two_queue"):
         _make_cache_scenario(_p)
+        _make_cache_scenario(_p, large=True)
